@@ -101,10 +101,10 @@ def decomp565(a: int, b: int) -> tuple[int, int, int]:
 
 def compress565(r: int, g: int, b: int) -> tuple[int, int]:
     """Compress an RGB triplet into 565-packed data."""
-    # Little-endian, the layout decomp565() reads: GGGRRRRR BBBBBGGG
+    # RRRRRGGG GGGBBBBB
     return (
-        (g << 3) & 0b11100000 | (r >> 3),
-        (b & 0b11111000) | (g >> 5),
+        (g << 3) & 0b11100000 | (b >> 3),
+        (r & 0b11111000) | (g >> 5),
     )
 
 
